@@ -28,7 +28,7 @@ def varies_of(shape, extra):
     if shape == "scalar":
         return []
     letters = [l for l, _ in extra]
-    return [-1 if ch == "t" else letters.index(ch) for ch in shape]
+    return [-1 if ch == "t" else (-2 if ch == "T" else letters.index(ch)) for ch in shape]  # "T": time, alternating long- and short-lived cohorts
 
 
 def prm_fn(base, shapes, extra):
@@ -47,15 +47,15 @@ def make_param(dims, name, base, shape, extra, n_t):
     if shape == "scalar":
         return base[name]
     var = varies_of(shape, extra)
-    sub = dims.get_subset(tuple(shape))
+    sub = dims.get_subset(tuple(shape.lower() if False else shape.replace("T", "t")))
     v = np.zeros(sub.shape)
-    sizes = [n_t if ch == "t" else dict(extra)[ch] for ch in shape]
+    sizes = [n_t if ch in "tT" else dict(extra)[ch] for ch in shape]
     nlab = len(extra)
     for idx in itertools.product(*[range(s) for s in sizes]):
         cidx = 0
         lab = [0] * nlab
         for ch, i in zip(shape, idx):
-            if ch == "t":
+            if ch in "tT":
                 cidx = i
             else:
                 lab[[l for l, _ in extra].index(ch)] = i
@@ -72,6 +72,9 @@ def make_lifetime(dist, dims, base, shapes, extra, inflow_at="middle", n_pts=1, 
     if via == "ctor":
         return cls(dims=dims, inflow_at=inflow_at, n_pts_per_interval=n_pts, **prms)
     lm = cls(dims=dims, inflow_at=inflow_at, n_pts_per_interval=n_pts)
+    if via == "positional":  # set_prms(mean, std) / set_prms(weibull_shape, weibull_scale): the documented order
+        lm.set_prms(*[prms[nm] for nm in base])
+        return lm
     if via == "reparam":
         # the model has a past: other parameters were set and both tables were read before
         other = {nm: (v + 0.75 if not hasattr(v, "values") else v + 0.75) for nm, v in prms.items()}
